@@ -20,7 +20,7 @@ func flexH(x0, y0 int64, after ...Seg) []Seg {
 }
 
 // NumOutlines is the size of the outline family.
-const NumOutlines = 18
+const NumOutlines = 19
 
 // OutlineName names the members of the family.
 var OutlineName = [NumOutlines]string{
@@ -28,6 +28,7 @@ var OutlineName = [NumOutlines]string{
 	"two-contours", "fractions", "dyadic-fractions", "flex-after-move", "flex-after-line",
 	"flex-after-curve", "vertical-flex-after-line", "number-boundaries", "mixed-hv",
 	"contour-starting-where-the-previous-one-ended", "nearly-axis-parallel-steps-far-from-the-origin",
+	"curves-that-look-like-hv-or-vh-curves-and-are-not",
 }
 
 // Outline returns member k of the outline family.
@@ -99,6 +100,16 @@ func Outline(k int) []Contour {
 			lq(I(20020), R(-30000*200+3, 200)), lq(R(20020*500+3, 500), I(-29950)),
 			cq(pt(I(20030), R(-29950*200+3, 200)), pt(I(20050), I(-29930)), pt(R(20050*500+3, 500), I(-29900))),
 			lq(I(20000), I(-29900))}}}
+	case 18:
+		// start tangent on an axis, end point level with (or straight above) the FIRST
+		// control point instead of the second: rrcurveto is the only form that fits
+		return []Contour{{P(10, 20), []Seg{
+			C(110, 20, 60, 100, 110, 120),   // y1 = y0, x3 = x1 != x2
+			C(110, 220, 190, 170, 210, 220), // x1 = x0, y3 = y1 != y2
+			C(310, 220, 260, 300, 260, 320), // a real hvcurveto (x3 = x2) for comparison
+			C(260, 420, 340, 370, 360, 370), // a real vhcurveto (y3 = y2)
+			C(460, 370, 360, 470, 360, 370), // y1 = y0, x3 = x2 = x0, y3 = y0
+			L(10, 370)}}}
 	}
 	panic("no such outline")
 }
@@ -389,6 +400,9 @@ func dictionaryFonts() []*Font {
 		out = append(out, f)
 		f = base("E:private negative and large")
 		f.Private = Private{BlueValues: []int{-32768, 32767}, OtherBlues: []int{-1, 1}, BlueScale: fp(0.5), BlueShift: ip(-3), BlueFuzz: ip(100), StdHW: 1000, ForceBold: bp(true)}
+		out = append(out, f)
+		f = base("E:private negative standard stem widths")
+		f.Private = Private{BlueValues: []int{-10, 0}, StdHW: -12.5, StdVW: -80}
 		out = append(out, f)
 		f = base("E:private more alignment zones than the format's seven and five pairs")
 		f.Private = Private{BlueValues: []int{-20, 0, 100, 110, 200, 210, 300, 310, 400, 410, 500, 510, 600, 615, 700, 712, 800, 820, 900, 901}, OtherBlues: []int{-600, -590, -500, -490, -400, -390, -300, -290, -200, -190, -100, -90}}
